@@ -113,9 +113,12 @@ Section RaftFacts.
   Lemma avail_up : forall x, avail x = true -> up x = true.
   Proof. intros x H; unfold avail in H; apply andb_prop in H; tauto. Qed.
 
-  Lemma step_inv : forall s e s', good_cfg (cfg s) -> Inv s -> step raft_ok s e = Some s' -> Inv s'.
+  (* general form: either raft snapshots are never installed (snap_install = false), or the step is not one *)
+  Lemma step_inv_gen : forall s e s', wal_on (cfg s) = true -> clamp (cfg s) = true ->
+    (snap_install (cfg s) = false \/ forall m, e <> RSnapshot m) ->
+    Inv s -> step raft_ok s e = Some s' -> Inv s'.
   Proof.
-    intros s e s' (Hwal & Hclamp & Hnosnap) HI H. unfold Inv in *.
+    intros s e s' Hwal Hclamp Hnosnap HI H. unfold Inv in *.
     destruct e; cbn [step] in H.
     - (* Propose *)
       destruct (avail (nodes s n)) eqn:Hav; [|discriminate].
@@ -260,6 +263,7 @@ Section RaftFacts.
       + intros _. repeat split; try assumption; lia.
       + intros Hd; congruence.
     - (* RSnapshot *)
+      destruct Hnosnap as [Hnosnap|Hne]; [|exfalso; apply (Hne m); reflexivity].
       destruct (leader s) as [l|]; [|discriminate]. rewrite Hnosnap in H. cbn in H. discriminate.
     - (* Kill *)
       set (x := nodes s n) in *.
@@ -315,6 +319,11 @@ Section RaftFacts.
     - (* Rotate *)
       destruct (get_new_rg (master s) (peers s) newm) as [[m' ps']|]; [|discriminate].
       inversion H; subst; cbn. assumption.
+  Qed.
+
+  Lemma step_inv : forall s e s', good_cfg (cfg s) -> Inv s -> step raft_ok s e = Some s' -> Inv s'.
+  Proof.
+    intros s e s' (Hwal & Hclamp & Hnosnap) HI H. eapply step_inv_gen; try eassumption. left; assumption.
   Qed.
 
   Lemma run_inv : forall es s s', good_cfg (cfg s) -> Inv s -> run raft_ok s es = Some s' -> Inv s' /\ cfg s' = cfg s.
